@@ -340,6 +340,16 @@ class FilesystemLayout(_BaseLayout[_MaildirT]):
     def _get_path(self, parts: _Parts) -> str:
         return os.path.join(self._path, *parts)
 
+    @classmethod
+    def _split(cls, name: str, delimiter: str) -> _Parts:
+        parts = super()._split(name, delimiter)
+        for part in parts:
+            # Sub-folders are directories next to the message directories of
+            # their parent, which are never folders themselves.
+            if part in ('new', 'cur', 'tmp'):
+                raise FileNotFoundError(name)
+        return parts
+
     def _can_remove(self, parts: _Parts) -> bool:
         path = self._get_path(parts)
         for elem in os.listdir(path):
